@@ -275,6 +275,30 @@ def a17(led, rid, ctx):
     led.floor(rid, "API calls of solve_under_assumptions", n, 1)
 
 
+def a18(led, rid, ctx):
+    """MUST-PASS: every CoreExtractionResult::Core that extract_clausal_core builds is dominated by
+    the all-decision analysis of the current conflict (resolve_conflict) in the same body: a core
+    comes from the state of *this* unsatisfiable solve, never from something remembered"""
+    lib = ctx.lib
+    f = lib.method("ConstraintSatisfactionSolver", "extract_clausal_core")
+    n = 0
+    for g in f.with_closures():
+        res = g.calls_named("resolve_conflict")
+        for bb, i, st in aggregates(g, "CoreExtractionResult", "Core"):
+            n += 1
+            ok = any(g.cfg.dominates(c.bb, bb) for c in res)
+            if not ok and call_guarded(g, bb, "is_infeasible", True) is not None:
+                e = resolver(g).rvalue(st["rv"])
+                ok = any(x.k == "call" and x.a.name == "new" for x in e.walk()) and not any(
+                    x.k == "proj" for x in e.walk())      # the empty core of a model that is infeasible by itself
+            led.check(ok, rid, "core-from-analysis@%d" % n, "%s:%d" % (g.file, st["line"]),
+                      "dominated by resolve_conflict",
+                      "extract_clausal_core builds a Core that is not the result of analysing the current conflict "
+                      "(no resolve_conflict dominates it): a remembered core belongs to the assumptions of an "
+                      "earlier solve and can name assumptions that were not given this time")
+    led.floor(rid, "Core constructions in extract_clausal_core", n, 1)
+
+
 def run(ctx, led):
     run_rule(led, "A1", "the core guard implements Drop and restores the root state on every path", a1, ctx)
     run_rule(led, "A2", "the core guard is constructed only by its constructor, only from "
@@ -301,6 +325,7 @@ def run(ctx, led):
     from . import minimiser
     run_rule(led, "A15", "semantic minimiser: every folding step maps the values a record stands for to exactly those satisfying the folded predicate (decided on all records of a 5-value window)", minimiser.steps_exact, ctx)
     run_rule(led, "A16", "semantic minimiser: the emitted predicates describe the record exactly relative to the root domain; holes leave the bounds before redundant holes are dropped", minimiser.emission_exact, ctx)
+    run_rule(led, "A18", "MUST-PASS: every core is the result of analysing the current conflict", a18, ctx)
     run_rule(led, "A17", "the API forwards the caller's assumptions unchanged", a17, ctx)
     from . import kernel as _kernel2
     _kernel2.run_lifecycle(led, ctx, "A")
